@@ -405,18 +405,21 @@ def oracle(case, base, row):
                     fails.append((f"data-aliased:{cls}", f"field {n}: the array returned for "
                                   f"{c.get('type', 'field')}:{c['ncvar']} shares memory with the construct: {d[1]}"))
         # the report
-        if field_concerned(bf, meta) and report_expected(meta, rf):
+        if field_concerned(bf, meta, base) and report_expected(meta, rf):
             if not report_mentions(rf["report"], meta):
                 fails.append((f"not-reported:{cls}", f"field {n}: dataset_compliance() does not mention the broken "
                               f"{v}:{attr} = {meta['value']!r}; report = {rf['report'][:4]}"))
     return fails
 
 
-def field_concerned(bf, meta):
+def field_concerned(bf, meta, base=None):
     """Does the base field contain the variable carrying the attribute (as itself or as a construct)?"""
     v = meta["var"]
     if bf["ncvar"] == v:
         return True
+    if meta["attr"] in GEOM_ATTRS and base is not None:
+        # the carrying variable is a geometry container: the fields of the data variables naming it
+        return any(x["name"] == bf["ncvar"] and x["attrs"].get("geometry") == v for x in base["raw"]["vars"])
     for c in bf["constructs"]:
         if c["ncvar"] == v or (c["bounds"] and c["bounds"][0] == v):
             return True
@@ -425,6 +428,9 @@ def field_concerned(bf, meta):
 
 def report_expected(meta, rf):
     k = effective_kind(meta)
+    if meta["attr"] in GEOM_ATTRS and k == "foreign":
+        # a part node count / interior ring variable has no parent whose dimensions it must share
+        return meta["attr"] in ("node_coordinates", "node_count")
     if k in ("missing", "foreign"):
         return True
     if k == "malformed":
@@ -668,6 +674,12 @@ def double_faults(singles, rng, n):
         b = rng.choice(keys)
         c1, c2 = rng.sample(by_base[b], 2)
         if c1["edits"][0][:2] == c2["edits"][0][:2]:
+            continue
+        if any(a["meta"]["attr"] in DIM_ATTRS and a["meta"]["new"] == "zz_fdim" and
+               any("zz_fdim" in sp["dims"][1:] for sp in b.get("extra_vars") or [])
+               for a, b in ((c1, c2), (c2, c1))):
+            # (the added variable would itself become a variable of the ragged array, spanning the
+            #  sample dimension in the wrong position: a third fault)
             continue
         ex = {sp["name"]: sp for sp in (c1.get("extra_vars") or []) + (c2.get("extra_vars") or [])}
         out.append({"base": b, "foreign": c1["foreign"] or c2["foreign"], "edits": c1["edits"] + c2["edits"],
